@@ -244,6 +244,7 @@ class Sec:
                     ty = self.node_ty(n)
                     if ty in ("bool", "&bool"):
                         c.ing.add("PEER_BIT")
+                        c.ing.add("BIT_BOUND")
                     if T_MAC in ty or ty in ("u128", "&u128"):
                         c.ing.add("PEER_MAC")
                 # calls feeding the condition (same body)
@@ -262,6 +263,14 @@ class Sec:
                                 c.ing.add("POINT")
                             if tail in ("ne", "eq"):
                                 c.ing.add("CMP")
+                                # the received (bit, x) pair is compared as a whole: the bit is bound
+                                for a in ct["args"]:
+                                    if a["k"] == "const":
+                                        continue
+                                    if "(bool, " in a["p"]["ty"]:
+                                        an = fg.backward(fg.operand_nodes(bk, a), node_ok=lambda n: n[0] == bk, edge_ok=lambda e: e.kind in ("ref", "copy") or (e.kind == "call" and struct_edge(e)))
+                                        if any(x in all_comp for x in an):
+                                            c.ing.add("BIT_BOUND")
                             if n.endswith("faand::hash_vec"):
                                 c.ing.add("HASHVEC")
                             if tail == "clmul":
